@@ -427,7 +427,19 @@ def r13_4(ctx):
                     dominated = any((ast.unparse(t) == "self._is_original" and pol is False) or
                                     (ast.unparse(t) == "not self._is_original" and pol is True) for t, pol in guards)
                     n_sites += 1
-                    ctx.check(recv == "self" and dominated, f.qualname, detail="_transcribe on a tree that may be the original",
+                    # the receiver may also be the deep copy that was just made (a local assigned from deepcopy(self))
+                    fresh = False
+                    if isinstance(n.func.value, ast.Name):
+                        fresh = any(d.kind == "assign" and isinstance(d.value, ast.Call) and ast.unparse(d.value.func) in ("copy.deepcopy", "deepcopy") and d.value.args
+                                    and ast.unparse(d.value.args[0]) == "self" for d in sc.defs.get(n.func.value.id, []))
+                    if f.qualname == "Ocp._transcribed":
+                        # a query on a copy that already exists must never transcribe: the copy may be a stale one kept alive by an old
+                        # solution object, and Ocp._transcribe ends by marking the ORIGINAL as transcribed (the next solve would reuse it)
+                        ctx.check(fresh, "Ocp._transcribed transcribes only the copy it has just made", detail="a query on an existing (possibly stale) copy re-transcribes it and marks the original as transcribed: changes made since are ignored by the next solve",
+                                  expected="augmented = copy.deepcopy(self); ...; augmented._transcribe()  -- and no _transcribe() in the branch for copies",
+                                  found="%s._transcribe() under guards [%s]" % (recv, ", ".join(("" if p else "not ") + ast.unparse(t) for t, p in guards)), fi=f, node=n)
+                        continue
+                    ctx.check((recv == "self" and dominated) or fresh, f.qualname, detail="_transcribe on a tree that may be the original",
                               expected="call self._transcribe() only under `not self._is_original` (the receiver is the deep copy)",
                               found="%s._transcribe() under guards [%s]" % (recv, ", ".join(("" if p else "not ") + ast.unparse(t) for t, p in guards)),
                               fi=f, node=n)
